@@ -96,6 +96,27 @@ def draw_perm(draw, st, n, p_identity=4):
     return list(draw(st.permutations(ident(n))))
 
 
+def add_migrations(draw, spec, max_extra=3, p=3):
+    """More migration rows (referentially valid; sort()/loading only need that much)."""
+    from hypothesis import strategies as st
+
+    from .. import model
+
+    npop = len(spec["populations"])
+    if not npop or draw(st.integers(0, p - 1)) > 0:
+        return
+    bps = model.breakpoints(spec)
+    times = sorted({nd[1] for nd in spec["nodes"]})
+    for _ in range(draw(st.integers(1, max_extra))):
+        a = draw(st.integers(0, len(bps) - 2))
+        b = draw(st.integers(a + 1, len(bps) - 1))
+        spec["migrations"].append([bps[a], bps[b], draw(st.integers(0, len(spec["nodes"]) - 1)),
+                                   draw(st.integers(0, npop - 1)), draw(st.integers(0, npop - 1)),
+                                   draw(st.sampled_from(times)), draw(st.sampled_from(["", "mg", "\x00\x01z"]))])
+    spec["migrations"].sort(key=lambda r: F(r[5]))
+
+
+
 # ------------------------------------------------------------------ documented sort keys
 def edge_key(spec, e):
     return (F(spec["nodes"][e[2]][1]), e[2], e[3], F(e[0]))
@@ -180,9 +201,10 @@ def probe_positions(spec):
     return bps, xs
 
 
-def same_trees(ctx, model, got_spec, exp_spec, what):
+def same_trees(ctx, model, got_spec, exp_spec, what, breakpoints=True):
     bps, xs = probe_positions(exp_spec)
-    ctx.eq(model.breakpoints(got_spec), bps, what + ".breakpoints")
+    if breakpoints:
+        ctx.eq(model.breakpoints(got_spec), bps, what + ".breakpoints")
     for x in xs:
         a, b = model.parent_at(got_spec, x), model.parent_at(exp_spec, x)
         ctx.check(a == b, what, lambda: f"parent map at x={x}: got {a} expected {b}")
@@ -197,6 +219,11 @@ def ts_matches(ctx, model, ts, exp_spec, what):
         got = list(map(int, tree.parent_array[:n]))
         exp = model.parent_at(exp_spec, tree.interval.left)
         ctx.check(got == exp, what, lambda: f"tree at {tree.interval.left}: parent_array {got} expected {exp}")
+    ts_genotypes(ctx, model, ts, exp_spec, what)
+
+
+def ts_genotypes(ctx, model, ts, exp_spec, what):
+    """Sites and sample genotypes decoded from `ts` are those of exp_spec (by the model)."""
     ctx.check(ts.num_sites == len(exp_spec["sites"]), what,
               f"num_sites {ts.num_sites} expected {len(exp_spec['sites'])}")
     smp = list(map(int, ts.samples()))
